@@ -18,6 +18,7 @@ class SanCtx:
         self.idx = outer.idx
         self.spec = outer.spec
         self.classes = collections.Counter()
+        self.notes = []
         self.pid = 'SAN'
 
     def run(self, lines, exe='release'):
